@@ -1,3 +1,274 @@
-import QtyModel.Tables
+import QtyModel.Lemmas.Conv
+/-
+  C02 — Cross-unit comparison is physically correct and order-independent.
+
+  Property theorems only.  They describe the code AFTER the repair
+  "fix: make cross-unit == and partial_cmp independent of operand order"
+  (values in different units are compared in the unit with the smaller scale).
+  For the code before the repair `cmp_symm` is false: see
+  `cmp_symm_fails_for_old_code` below (a concrete witness, evaluated by the kernel).
+-/
 namespace Qty.C02
+open Qty
+
+variable {A U : Type} [DecidableEq U] (R : Arith A) (T : QT A U)
+
+/-! ### equal units: the amount type's own comparison -/
+
+theorem pcmp_same_unit (a b : Q A U) (h : a.unit = b.unit) :
+    hrPcmp R T a b = .ok (R.pcmp a.amount b.amount) := by
+  simp [hrPcmp, h]
+
+theorem eq_same_unit (a b : Q A U) (h : a.unit = b.unit) :
+    hrEq R T a b = .ok (R.beq a.amount b.amount) := by
+  unfold hrEq
+  split <;> simp [equivAmount, h, bind, Except.bind, pure, Except.pure]
+
+/-! ### `partial_cmp` reports `Equal` exactly when `==` holds (all values, NaN included) -/
+
+theorem eq_iff_pcmp_eq {M : ErrModel} (L : Laws R M) (a b : Q A U) (e : Bool) (p : Option Ordering)
+    (he : hrEq R T a b = .ok e) (hp : hrPcmp R T a b = .ok p) : e = (p == some .eq) := by
+  by_cases hu : a.unit = b.unit
+  · rw [eq_same_unit R T a b hu] at he
+    rw [pcmp_same_unit R T a b hu] at hp
+    cases he; cases hp
+    exact L.beq_pcmp _ _
+  · unfold hrEq at he
+    unfold hrPcmp at hp
+    simp only [hu, if_false] at hp
+    by_cases hl : R.le (T.scale a.unit) (T.scale b.unit) = true
+    · simp only [hl, if_true] at he hp
+      cases hq : equivAmount R T b a.unit with
+      | error x => simp [hq, bind, Except.bind] at he
+      | ok v =>
+        simp [hq, bind, Except.bind, pure, Except.pure] at he hp
+        rw [← he, ← hp]; exact L.beq_pcmp _ _
+    · simp only [hl] at he hp
+      cases hq : equivAmount R T a b.unit with
+      | error x => simp [hq, bind, Except.bind] at he
+      | ok v =>
+        simp [hq, bind, Except.bind, pure, Except.pure] at he hp
+        rw [← he, ← hp]; exact L.beq_pcmp _ _
+
+/-! ### the six operators are derived from `eq`/`partial_cmp` as Rust derives them -/
+
+theorem operators_derived (e : Bool) (p : Option Ordering) :
+    (Oracle.CmpObs.ofPcmp e p).lt = (p == some .lt) ∧
+    (Oracle.CmpObs.ofPcmp e p).gt = (p == some .gt) ∧
+    (Oracle.CmpObs.ofPcmp e p).le = (p == some .lt || p == some .eq) ∧
+    (Oracle.CmpObs.ofPcmp e p).ge = (p == some .gt || p == some .eq) ∧
+    (Oracle.CmpObs.ofPcmp e p).ne = !e := ⟨rfl, rfl, rfl, rfl, rfl⟩
+
+/-! ### helper facts about three-way comparison of rationals -/
+
+theorem ratCmp_flip (x y : Rat) : Oracle.flipOrd (some (ratCmp x y)) = some (ratCmp y x) := by
+  unfold ratCmp
+  rcases lt_trichotomy x y with h | h | h
+  · simp [h, not_lt.mpr (le_of_lt h), ne_of_gt h, Oracle.flipOrd]
+  · subst h; simp [Oracle.flipOrd]
+  · simp [h, not_lt.mpr (le_of_lt h), ne_of_gt h, Oracle.flipOrd]
+
+theorem le_total_of_val {M : ErrModel} (L : Laws R M) (c d : A) (x y : Rat)
+    (hc : R.val c = some x) (hd : R.val d = some y) :
+    (R.le c d = true ↔ x ≤ y) := by
+  unfold Arith.le
+  rw [L.pcmp_val c d x y hc hd]
+  unfold ratCmp
+  by_cases h1 : x < y
+  · simp only [h1, if_true]; exact ⟨fun _ => le_of_lt h1, fun _ => by decide⟩
+  · by_cases h2 : x = y
+    · subst h2; simp only [lt_irrefl, if_false, if_true]; exact ⟨fun _ => le_refl _, fun _ => by decide⟩
+    · simp only [h1, h2, if_false]
+      constructor
+      · intro h; exact absurd h (by decide)
+      · intro h; exact absurd (lt_of_le_of_ne h h2) h1
+
+/-! ### answers do not depend on operand order -/
+
+/-- `a == b` exactly when `b == a`, and `partial_cmp` is reversed when the operands are
+swapped (hence `a < b` exactly when `b > a`), for all finite amounts and all units. -/
+theorem cmp_symm {M : ErrModel} (L : Laws R M) (a b : Q A U) (sa sb x y : Rat)
+    (hsa : R.val (T.scale a.unit) = some sa) (hsb : R.val (T.scale b.unit) = some sb)
+    (hsa0 : sa ≠ 0) (hx : R.val a.amount = some x) (hy : R.val b.amount = some y) :
+    hrPcmp R T b a = (hrPcmp R T a b).map Oracle.flipOrd ∧ hrEq R T b a = hrEq R T a b := by
+  by_cases hu : a.unit = b.unit
+  · have hu' : b.unit = a.unit := hu.symm
+    rw [pcmp_same_unit R T a b hu, pcmp_same_unit R T b a hu', eq_same_unit R T a b hu,
+      eq_same_unit R T b a hu']
+    refine ⟨by rw [L.pcmp_flip a.amount b.amount]; rfl, ?_⟩
+    rw [L.beq_pcmp, L.beq_pcmp, L.pcmp_flip a.amount b.amount]
+    cases R.pcmp a.amount b.amount with
+    | none => rfl
+    | some o => cases o <;> rfl
+  · have hu' : ¬ b.unit = a.unit := fun h => hu h.symm
+    have hab := le_total_of_val R L _ _ sa sb hsa hsb
+    have hba := le_total_of_val R L _ _ sb sa hsb hsa
+    unfold hrPcmp hrEq
+    simp only [hu, hu', if_false]
+    rcases lt_trichotomy sa sb with h | h | h
+    · -- a's unit is strictly smaller: both orders compare a.amount with b converted
+      have h1 : R.le (T.scale a.unit) (T.scale b.unit) = true := hab.mpr (le_of_lt h)
+      have h2 : ¬ R.le (T.scale b.unit) (T.scale a.unit) = true := fun hh => not_le.mpr h (hba.mp hh)
+      simp only [h1, h2, ↓reduceIte, Bool.false_eq_true]
+      cases hq : equivAmount R T b a.unit with
+      | error e => simp [bind, Except.bind, Except.map]
+      | ok v =>
+        simp only [bind, Except.bind, pure, Except.pure, Except.map]
+        refine ⟨by rw [L.pcmp_flip], ?_⟩
+        rw [L.beq_pcmp, L.beq_pcmp, L.pcmp_flip a.amount v]
+        cases R.pcmp a.amount v with
+        | none => rfl
+        | some o => cases o <;> rfl
+    · -- equal scales, different units: both conversions are exact
+      subst h
+      have h1 : R.le (T.scale a.unit) (T.scale b.unit) = true := hab.mpr (le_refl _)
+      have h2 : R.le (T.scale b.unit) (T.scale a.unit) = true := hba.mpr (le_refl _)
+      simp only [h1, h2, if_true]
+      obtain ⟨c1, hd1, hc1⟩ := L.div_self_val _ _ sa hsb hsa hsa0
+      obtain ⟨c2, hd2, hc2⟩ := L.div_self_val _ _ sa hsa hsb hsa0
+      obtain ⟨d1, hm1, hd1v⟩ := L.one_mul_val c1 b.amount y hc1 hy
+      obtain ⟨d2, hm2, hd2v⟩ := L.one_mul_val c2 a.amount x hc2 hx
+      have e1 : equivAmount R T b a.unit = .ok d1 := by
+        simp [equivAmount, hu', ratio, hd1, hm1, bind, Except.bind]
+      have e2 : equivAmount R T a b.unit = .ok d2 := by
+        simp [equivAmount, hu, ratio, hd2, hm2, bind, Except.bind]
+      simp only [e1, e2, bind, Except.bind, pure, Except.pure, Except.map]
+      rw [L.pcmp_val _ _ y x hy hd2v, L.pcmp_val _ _ x y hx hd1v, ratCmp_flip]
+      refine ⟨rfl, ?_⟩
+      rw [L.beq_val _ _ y x hy hd2v, L.beq_val _ _ x y hx hd1v]
+      simp [eq_comm]
+    · -- b's unit is strictly smaller
+      have h1 : ¬ R.le (T.scale a.unit) (T.scale b.unit) = true := fun hh => not_le.mpr h (hab.mp hh)
+      have h2 : R.le (T.scale b.unit) (T.scale a.unit) = true := hba.mpr (le_of_lt h)
+      simp only [h1, h2, ↓reduceIte, Bool.false_eq_true]
+      cases hq : equivAmount R T a b.unit with
+      | error e => simp [bind, Except.bind, Except.map]
+      | ok v =>
+        simp only [bind, Except.bind, pure, Except.pure, Except.map]
+        refine ⟨by rw [L.pcmp_flip v b.amount], ?_⟩
+        rw [L.beq_pcmp, L.beq_pcmp, L.pcmp_flip v b.amount]
+        cases R.pcmp v b.amount with
+        | none => rfl
+        | some o => cases o <;> rfl
+
+/-! ### agreement with the exact order of the physical magnitudes -/
+
+theorem ratCmp_of_close (p q q' : Rat) (m : Rat) (hq : |q' - q| ≤ m) (hgap : m < |p - q|) :
+    ratCmp p q' = ratCmp p q := by
+  unfold ratCmp
+  rcases lt_trichotomy p q with h | h | h
+  · have : p < q' := by
+      rw [abs_of_neg (by linarith : p - q < 0)] at hgap
+      have := (abs_le.mp hq).1; linarith
+    simp [h, this]
+  · subst h; simp at hgap; have := abs_nonneg (q' - p); linarith
+  · have : q' < p := by
+      rw [abs_of_pos (by linarith : 0 < p - q)] at hgap
+      have := (abs_le.mp hq).2; linarith
+    simp [not_lt.mpr (le_of_lt h), ne_of_gt h, not_lt.mpr (le_of_lt this), ne_of_gt this]
+
+theorem ratCmp_scale (p q s : Rat) (hs : 0 < s) : ratCmp (p * s) (q * s) = ratCmp p q := by
+  unfold ratCmp
+  simp [mul_lt_mul_iff_of_pos_right hs, mul_left_inj' (ne_of_gt hs)]
+
+/-- Whenever the physical magnitudes `x·sₐ` and `y·s_b` differ by more than the rounding
+error of one conversion (the larger of the two directions' bounds — the same margin the
+run-time oracle uses), `partial_cmp` answers as their exact order and `==` is false. -/
+theorem cmp_physical {M : ErrModel} (L : Laws R M) (a b : Q A U) (sa sb x y : Rat)
+    (hu : a.unit ≠ b.unit)
+    (hsa : R.val (T.scale a.unit) = some sa) (hsb : R.val (T.scale b.unit) = some sb)
+    (hsa0 : 0 < sa) (hsb0 : 0 < sb)
+    (hx : R.val a.amount = some x) (hy : R.val b.amount = some y)
+    (hs1 : Oracle.convSafe M sb sa y = true) (hs2 : Oracle.convSafe M sa sb x = true)
+    (hgap : max (Oracle.convBound M sb sa y) (Oracle.convBound M sa sb x) < |x * sa - y * sb|) :
+    hrPcmp R T a b = .ok (some (ratCmp (x * sa) (y * sb))) ∧ hrEq R T a b = .ok false := by
+  have hu' : b.unit ≠ a.unit := fun h => hu h.symm
+  have hcmp_ne : ratCmp (x * sa) (y * sb) ≠ .eq := by
+    unfold ratCmp
+    intro h
+    by_cases h1 : x * sa < y * sb
+    · simp [h1] at h
+    · by_cases h2 : x * sa = y * sb
+      · rw [h2] at hgap; simp at hgap
+        have := le_max_left (Oracle.convBound M sb sa y) (Oracle.convBound M sa sb x)
+        have h0 : 0 ≤ Oracle.convBound M sb sa y := by
+          unfold Oracle.convBound
+          have := convBoundIn_nonneg L.wf sb sa y
+          rw [ratAbs_eq_abs]; positivity
+        linarith
+      · simp [h1, h2] at h
+  unfold hrPcmp hrEq
+  simp only [hu, if_false]
+  by_cases hl : R.le (T.scale a.unit) (T.scale b.unit) = true
+  · simp only [hl, if_true]
+    obtain ⟨c, y', heq, hy'v, hy'e, _⟩ :=
+      equiv_ok R T L b a.unit sb sa y hu' hsb hsa (ne_of_gt hsa0) hy hs1
+    simp only [heq, bind, Except.bind, pure, Except.pure]
+    have hclose : |y' * sa - y * sb| ≤ Oracle.convBound M sb sa y := by
+      unfold Oracle.convBound
+      rw [ratAbs_eq_abs]
+      have key : y' * sa - y * sb = sa * (y' - sb / sa * y) := by field_simp
+      rw [key, abs_mul]
+      exact mul_le_mul_of_nonneg_left hy'e (abs_nonneg sa)
+    have hc : ratCmp x y' = ratCmp (x * sa) (y * sb) := by
+      rw [← ratCmp_scale x y' sa hsa0]
+      exact ratCmp_of_close _ _ _ _ hclose (lt_of_le_of_lt (le_max_left _ _) hgap)
+    have hp : R.pcmp a.amount c = some (ratCmp (x * sa) (y * sb)) := by
+      rw [L.pcmp_val _ _ x y' hx hy'v, hc]
+    refine ⟨by rw [hp], ?_⟩
+    rw [L.beq_pcmp, hp]
+    cases h : ratCmp (x * sa) (y * sb) <;> simp_all
+  · simp only [hl, ↓reduceIte, Bool.false_eq_true]
+    obtain ⟨c, x', heq, hx'v, hx'e, _⟩ :=
+      equiv_ok R T L a b.unit sa sb x hu hsa hsb (ne_of_gt hsb0) hx hs2
+    simp only [heq, bind, Except.bind, pure, Except.pure]
+    have hclose : |x' * sb - x * sa| ≤ Oracle.convBound M sa sb x := by
+      unfold Oracle.convBound
+      rw [ratAbs_eq_abs]
+      have key : x' * sb - x * sa = sb * (x' - sa / sb * x) := by field_simp
+      rw [key, abs_mul]
+      exact mul_le_mul_of_nonneg_left hx'e (abs_nonneg sb)
+    have hgap' : max (Oracle.convBound M sb sa y) (Oracle.convBound M sa sb x) < |y * sb - x * sa| := by
+      rw [abs_sub_comm]; exact hgap
+    have hc : ratCmp y x' = ratCmp (y * sb) (x * sa) := by
+      rw [← ratCmp_scale y x' sb hsb0]
+      exact ratCmp_of_close _ _ _ _ hclose (lt_of_le_of_lt (le_max_right _ _) hgap')
+    have hflip : ratCmp x' y = ratCmp (x * sa) (y * sb) := by
+      have h1 := ratCmp_flip y x'
+      have h2 := ratCmp_flip (y * sb) (x * sa)
+      rw [hc] at h1
+      rw [h2] at h1
+      exact (Option.some.inj h1).symm
+    have hp : R.pcmp c b.amount = some (ratCmp (x * sa) (y * sb)) := by
+      rw [L.pcmp_val _ _ x' y hx'v hy, hflip]
+    refine ⟨by rw [hp], ?_⟩
+    rw [L.beq_pcmp, hp]
+    cases h : ratCmp (x * sa) (y * sb) <;> simp_all
+
+/-! ### the defect of the code before the repair, as a kernel-checked witness -/
+
+/-- `HasRefUnit::eq` as it was before the repair: always converts `other` into `self`'s unit. -/
+def oldEq (a b : Q A U) : Res Bool := do
+  return R.beq a.amount (← equivAmount R T b a.unit)
+
+/-- decimal back-end, units with scales 1 (second) and 60 (minute):
+`1 min == 60 s` was false while `60 s == 1 min` was true. -/
+theorem cmp_symm_fails_for_old_code :
+    let T : QT Dec Nat := { units := [0, 1], scale := fun u => if u = 0 then ⟨10, 1⟩ else ⟨60, 0⟩,
+                            hasPrefix := fun _ => false, ref := 0 }
+    oldEq Dec.arith T ⟨⟨1, 0⟩, 1⟩ ⟨⟨60, 0⟩, 0⟩ = .ok false ∧
+    oldEq Dec.arith T ⟨⟨60, 0⟩, 0⟩ ⟨⟨1, 0⟩, 1⟩ = .ok true ∧
+    hrEq Dec.arith T ⟨⟨1, 0⟩, 1⟩ ⟨⟨60, 0⟩, 0⟩ = .ok true ∧
+    hrEq Dec.arith T ⟨⟨60, 0⟩, 0⟩ ⟨⟨1, 0⟩, 1⟩ = .ok true := by
+  decide +kernel
+
+/-- non-vacuity of `cmp_physical`: 2 ft vs 25 in (decimal) are further apart than the margin -/
+example : Oracle.convSafe ErrModel.dec (254 / 10000) (3048 / 10000) 25 = true ∧
+    max (Oracle.convBound ErrModel.dec (254 / 10000) (3048 / 10000) 25)
+        (Oracle.convBound ErrModel.dec (3048 / 10000) (254 / 10000) 2)
+      < |(2 : Rat) * (3048 / 10000) - 25 * (254 / 10000)| := by
+  constructor
+  · decide +kernel
+  · norm_num [Oracle.convBound, Oracle.convBoundIn, ErrModel.dec, ErrModel.eta18, ratAbs, pow10]
+
 end Qty.C02
